@@ -956,7 +956,7 @@ class ItemMoveMultiple(MosFile):
             )
 
         if self.item is None:
-            target_item_index = len(story)
+            target_item = None
         else:
             target_item, target_item_index = find_child(parent=story, child_tag='item', id=self.item.id)
             if target_item is None:
@@ -964,13 +964,27 @@ class ItemMoveMultiple(MosFile):
                     f"{self.__class__.__name__} error in {self.message_id} - target item not found"
                 )
 
-        for i, item in enumerate(self.items, start=target_item_index):
+        # find every source before changing anything
+        source_items = []
+        for item in self.items:
             source_item, source_item_index = find_child(parent=story, child_tag='item', id=item.id)
             if source_item_index is None:
                 raise MosMergeError(
                     f"{self.__class__.__name__} error in {self.message_id} - source item not found"
                 )
+            if source_item is target_item or source_item in source_items:
+                raise MosMergeError(
+                    f"{self.__class__.__name__} error in {self.message_id} - duplicate item in list"
+                )
+            source_items.append(source_item)
+        for source_item in source_items:
             remove_node(parent=story, node=source_item)
+        if target_item is None:
+            target_item_index = len(story)
+        else:
+            # the target's index may have shifted when the sources were removed
+            target_item_index = list(story).index(target_item)
+        for i, source_item in enumerate(source_items, start=target_item_index):
             insert_node(parent=story, node=source_item, index=i)
 
         return ro
@@ -1984,18 +1998,36 @@ class EAItemMove(ElementAction):
             raise MosMergeError(
                 f"{self.__class__.__name__} error in {self.message_id} - story not found"
             )
-        target_item, target_item_index = find_child(parent=story, child_tag='item', id=self.item.id)
-        if target_item is None:
-            raise MosMergeError(
-                f"{self.__class__.__name__} error in {self.message_id} - target item not found"
-            )
-        for i, source_item in enumerate(self.items, start=target_item_index):
+        if self.item.id is None:
+            # blank target itemID: move to the end of the story
+            target_item = None
+        else:
+            target_item, target_item_index = find_child(parent=story, child_tag='item', id=self.item.id)
+            if target_item is None:
+                raise MosMergeError(
+                    f"{self.__class__.__name__} error in {self.message_id} - target item not found"
+                )
+        # find every source before changing anything
+        items = []
+        for source_item in self.items:
             item, item_index = find_child(parent=story, child_tag='item', id=source_item.id)
             if item is None:
                 raise MosMergeError(
                     f"{self.__class__.__name__} error in {self.message_id} - source item not found"
                 )
+            if item is target_item or item in items:
+                raise MosMergeError(
+                    f"{self.__class__.__name__} error in {self.message_id} - source item listed twice or same as target"
+                )
+            items.append(item)
+        for item in items:
             remove_node(parent=story, node=item)
+        if target_item is None:
+            target_item_index = len(story)
+        else:
+            # the target's index may have shifted when the sources were removed
+            target_item_index = list(story).index(target_item)
+        for i, item in enumerate(items, start=target_item_index):
             insert_node(parent=story, node=item, index=i)
         return ro
 
